@@ -86,7 +86,8 @@ def run(ctx):
         key = keys[bound % len(keys)]
         s = inputs[(bound // 4) % len(inputs)]
         cases.append((key, bound, s, [None, 2, 7, 1][bound % 4]))
-        cases.append((keys[(bound + 1) % len(keys)], bound, s, [3, None, 0, 5][bound % 4]))
+        if bound % 2 or ctx.tier == 'thorough':
+            cases.append((keys[(bound + 1) % len(keys)], bound, s, [3, None, 0, 5][bound % 4]))
         if have_np and bound % 16 == 5:
             cases.append((key, bound, s, (2, 2)))
     # random larger bounds
@@ -159,6 +160,7 @@ def run(ctx):
                                'impl': str(flat)[:200], 'ref': str(want)[:200]})
         ctx.case(desc, nontrivial=(bound >= 2 and n_ >= 1),
                  kind=('shape' if is_shape else 'scalar' if n is None else 'list') + (' pow2' if bound & (bound - 1) == 0 else ' nonpow2'))
+        ctx.extra['digest_bytes_fed_to_model'] = ctx.extra.get('digest_bytes_fed_to_model', 0) + len(dk)
         exprs.append('prf_data %s %s %s %s' % (zlist(list(dk)), zlit(len(key)), zlit(bound), natlit(n_)))
         meta.append((desc, F.byte_length, flat))
 
@@ -177,7 +179,14 @@ def run(ctx):
     ctx.log('%d implementation cases (numpy shapes: %s); %d prefix-law checks; evaluating %d model expressions in Coq'
             % (len(meta), have_np, npref, len(exprs)))
     if ok:
-        res = ctx.coq_eval(['MPyC.PRFModel'], exprs, chunk=100)
+        # many cases per Eval and few files: per-file library loading dominates coqc time
+        per = 25
+        batched = ['[%s]' % '; '.join(exprs[i:i + per]) for i in range(0, len(exprs), per)]
+        bres = ctx.coq_eval(['MPyC.PRFModel'], batched, chunk=12)
+        res = []
+        for i, r in enumerate(bres):
+            k = len(exprs[i * per:(i + 1) * per])
+            res.extend(r if isinstance(r, list) and len(r) == k else [('ERROR', str(r)[:300])] * k)
         mism = 0
         for r, (desc, l_impl, flat) in zip(res, meta):
             if isinstance(r, tuple) and r and r[0] == 'ERROR':
